@@ -92,6 +92,13 @@ def main(argv=None):
             p = subprocess.Popen([sys.executable, "-m", "kv.shard", pid, args.tier, str(seed), str(s), str(nshards), out],
                                  cwd=HERE, env=child_env(), stdout=log, stderr=subprocess.STDOUT)
             procs.append((p, out, log))
+        fuzz_runs = budget.get("fuzz_runs", 0)
+        if fuzz_runs:
+            out = os.path.join(work, "fuzz.json")
+            log = open(os.path.join(work, "fuzz.log"), "w")
+            p = subprocess.Popen([sys.executable, "-m", "kv.fuzz", pid, args.tier, str(seed), str(fuzz_runs), out],
+                                 cwd=HERE, env=child_env(), stdout=log, stderr=subprocess.STDOUT)
+            procs.append((p, out, log))
         results = []
         hard_wall = budget.get("wall", 120 if args.tier == "quick" else 1200) * 3 + 600
         for p, out, log in procs:
@@ -193,6 +200,10 @@ def conclude(mod, pid, tier, seed, nshards, results, wall):
             "buckets_excluded_after_first_report": excluded,
             "skipped_by_wall_budget": sum(r["skipped_budget"] for r in results),
             "shards": nshards,
+            "atheris_campaign": {"runs_requested": getattr(mod, "budget")(tier).get("fuzz_runs", 0),
+                                 "executions": sum(r.get("generated", 0) for r in results if r.get("fuzz")),
+                                 "note": "coverage-guided libFuzzer campaign over the same generator and oracle "
+                                         "(hypothesis.fuzz_one_input); approximately reproducible from -seed, failing case saved as JSON"},
             "slowest_cases_s": sorted([e for r in results for e in r.get("slowest", [])], key=lambda e: -e[0])[:3],
             "exhaustive": False,
             "exhaustive_subspaces": getattr(mod, "EXHAUSTIVE_SUBSPACES", {}).get(tier, []),
